@@ -248,7 +248,6 @@ class DefaultOpenFlowHandlers (OpenFlowHandlers):
     con.ports._reset()
     con.dpid = msg.datapath_id # Check this
 
-    con.ofnexus._connect(con) #FIXME: Should this be here?
     e = con.ofnexus.raiseEventNoErrors(FeaturesReceived, con, msg)
     if e is None or e.halt != True:
       con.raiseEventNoErrors(FeaturesReceived, con, msg)
